@@ -62,6 +62,39 @@ Theorem C01_loop_empty_body_refuted :
 Proof. exact empty_body_refuted. Qed.
 Print Assumptions C01_loop_empty_body_refuted.
 
+(** Switch statements (models; the simulation theorem does not cover them yet, [wf] rejects them):
+    G and Y agree on a program with tagged and tagless switches, init, several case expressions,
+    fallthrough, break and continue inside clauses, nested in a loop. *)
+Theorem C01_switch_models_inhabited :
+  GoSem.run 1000 w_switch_example = Done [60; 61; 62; 64; 61; 64; 61; 62; 64; 60; 61; 62; 7; 3; 64]%Z false /\
+  Cfg.run 4000 w_switch_example = Done [60; 61; 62; 64; 61; 64; 61; 62; 64; 60; 61; 62; 7; 3; 64]%Z false.
+Proof. exact switch_example. Qed.
+Print Assumptions C01_switch_models_inhabited.
+
+(** switch { default: A; case x0 > 0: B; case true: }: Go runs B, yaegi swaps default with the last clause. *)
+Theorem C01_switch_default_order_refuted :
+  GoSem.run 100 w_default_order = Done [2]%Z false /\ Cfg.run 1000 w_default_order = Done [] false.
+Proof. exact switch_default_order_refuted. Qed.
+Print Assumptions C01_switch_default_order_refuted.
+
+(** switch x0 := 10; x0 % 6 { case 0: A; case 4: B }: Go runs B, yaegi never evaluates the tag and runs A. *)
+Theorem C01_switch_init_tag_refuted :
+  GoSem.run 100 w_init_tag = Done [2]%Z false /\ Cfg.run 1000 w_init_tag = Done [1]%Z false.
+Proof. exact switch_init_tag_refuted. Qed.
+Print Assumptions C01_switch_init_tag_refuted.
+
+(** case 1, x1 - 2:  /  case x0 > 5, x1 > 4:  only the first expression of a clause is wired. *)
+Theorem C01_switch_case_list_refuted :
+  GoSem.run 100 w_case_list = Done [10; 30]%Z false /\ Cfg.run 1000 w_case_list = Done [12; 32]%Z false.
+Proof. exact switch_case_list_refuted. Qed.
+Print Assumptions C01_switch_case_list_refuted.
+
+(** switch 1 / x0 { }: Go evaluates the tag (and panics), yaegi does not wire an empty switch. *)
+Theorem C01_switch_empty_refuted :
+  GoSem.run 100 w_switch_empty = Done [1]%Z true /\ Cfg.run 1000 w_switch_empty = Done [1; 2]%Z false.
+Proof. exact switch_empty_refuted. Qed.
+Print Assumptions C01_switch_empty_refuted.
+
 Theorem C01_statement_refuted : ~ C01_statement.
 Proof. exact statement_refuted. Qed.
 Print Assumptions C01_statement_refuted.
